@@ -49,6 +49,7 @@ class ChainWorld(World):
             "start_version": rng.choice(START_VERSIONS) if rng.random() < 0.9 else rng.choice(EXOTIC_VERSIONS),
             "start_keys": rng.randint(1, min(4, n_keys)),
             "profile": "history",
+            "single_cache_file": rng.random() < 0.5,     # client keeps one root.json it rewrites, or N.root.json per adoption
         }
         h["start_threshold"] = rng.randint(1, h["start_keys"])
         if prop == "C03" and rng.random() < 0.5:
@@ -70,6 +71,7 @@ class ChainWorld(World):
         self.patch.set(rs, "SSLIB_AVAILABLE", True)
         self.patch.set(rs, "gpg_funcs", self.gpgstub)
         self.patch.set(self.lib.common, "open", self.fs.open)
+        self.fs.install_stat(self.patch)
         self.cstate = SimClockState(self.clock)
         self.cstate.hook = self._clock_hook
         self.patch.set(self.lib.common, "datetime", make_clock_class(self.cstate))
@@ -95,7 +97,7 @@ class ChainWorld(World):
         self.clients = []
         for c in range(header.get("clients", 1)):
             self.clients.append({"trusted": copy.deepcopy(root), "history": [digest(root)], "n": 0, "forked": False})
-            self.fs.put("c%d/0.root.json" % c, refcanon(root))
+            self.fs.put("c%d/root.json" % c if header.get("single_cache_file") else "c%d/0.root.json" % c, refcanon(root))
 
     def close(self):
         self.patch.restore()
@@ -254,6 +256,7 @@ class ChainWorld(World):
     def apply(self, op):
         dt = op.get("dt", 0)
         self.clock += dt
+        self.fs.now += dt
         self.run.sim_time += dt
         getattr(self, "op_" + op["op"])(op)
 
@@ -388,6 +391,8 @@ class ChainWorld(World):
                     gen.del_path(doc, m[1])
                 elif kind == "strip_sigs":
                     doc["signatures"] = {}
+                elif kind == "drop_sig":
+                    doc["signatures"].pop(self.keys.pub[m[1]], None)
                 elif kind == "junk":
                     doc["signatures"][m[1]] = m[2]
                 elif kind == "tweak":      # ["tweak", key idx, tweak]
@@ -414,6 +419,12 @@ class ChainWorld(World):
         T = cl["trusted"]
         N = copy.deepcopy(doc)
         o = self.calls.call("verify_root", T, N)
+        if digest(T) != cl["history"][-1]:
+            # the client's trusted root is only ever replaced by an accepted update; nothing else may change it
+            self.run.violate(("C04", "C03", "C12"), "trusted-root-changed-without-adoption",
+                             "the trusted root object held by the client changed although no update was adopted (verification modified it)",
+                             "trusted-root-changed-without-adoption")
+            return
         adopted = self.judge_offer(T, N, o, ctx)
         if self.run.stop:
             return
@@ -434,7 +445,7 @@ class ChainWorld(World):
                 cl["forked"] = True
                 self.run.probe("attacker_with_quorum_moved_client")
             cl["n"] += 1
-            path = "c%d/%d.root.json" % (c, cl["n"])
+            path = self._cache_path(c)
             w = self.calls.raw("write_metadata_to_file", N, path)
             if not w.ok:
                 self.run.violate(("C08",), "persist-failed", "write_metadata_to_file raised %r" % (w,))
@@ -502,7 +513,7 @@ class ChainWorld(World):
         if c >= len(self.clients):
             return self.run.ev("noop")
         cl = self.clients[c]
-        path = "c%d/%d.root.json" % (c, cl["n"])
+        path = self._cache_path(c)
         lo = self.calls.raw("load_metadata_from_file", path)
         self.run.fault("client_crash_restart")
         if not lo.ok:
@@ -517,6 +528,11 @@ class ChainWorld(World):
 
     def op_tick(self, op):
         pass
+
+    def _cache_path(self, c):
+        if self.h.get("single_cache_file"):
+            return "c%d/root.json" % c
+        return "c%d/%d.root.json" % (c, self.clients[c]["n"])
 
     # ------------------------------------------------------------------ quiescence
     def finish(self):
@@ -537,6 +553,10 @@ class ChainWorld(World):
         for c, cl in enumerate(self.clients):
             if cl["forked"] or run.stop:
                 continue
+            # the client restarts (reloading what it persisted), then refreshes
+            self.op_crash_restart({"client": c})
+            if run.stop:
+                return
             # bounded liveness: the refresh loop reaches the latest model-acceptable root
             fetches = 0
             start_v = cl["trusted"]["signed"]["version"]
@@ -562,6 +582,10 @@ class ChainWorld(World):
                     run.violate(("C04", "C03", "C02"), "liveness", "client stopped at version %r although %r is acceptable" % (tv, tv + 1))
             if digest(cl["trusted"]) == digest(self.head):
                 run.probe("client_converged_to_head")
+            # and what the client persisted on the way reloads to what it trusts
+            self.op_crash_restart({"client": c})
+            if run.stop:
+                return
 
     # ------------------------------------------------------------------ generator
     def gen(self, rng):
@@ -691,7 +715,8 @@ class ChainWorld(World):
         signers = []
         hx = lambda n: "".join(rng.choice("0123456789abcdef") for _ in range(n))  # noqa: E731
         kind = rng.choice(["forge_next", "forge_next", "rollback", "skip", "same_version", "self_appoint",
-                           "lower_threshold", "type_flip", "type_flip_after", "raw_sigs", "junk", "tweak",
+                           "lower_threshold", "type_flip", "type_flip_after", "raw_sigs", "junk", "tweak", "drop_fields",
+                           "double_count", "double_count",
                            "respell", "misfile", "confuse", "drop_root_delegation", "subthreshold", "new_only",
                            "old_only_unmeetable", "resign_stale"])
         kinds.append(kind)
@@ -759,6 +784,35 @@ class ChainWorld(World):
                 mods = [["del", p]]
             else:
                 mods = [["set", p, gen.confuse(rng, old)]]
+            if rng.random() < 0.3:
+                p2 = list(rng.choice(ps))
+                mods.append(["del", p2] if rng.random() < 0.5 else ["set", p2, gen.confuse(rng, None)])
+            if rng.random() < 0.5:
+                mods.insert(0, ["version_delta", 1])
+            signers = comp if rng.random() < 0.5 else []
+        elif kind == "double_count":
+            # one signer short of a rule, plus a second spelling of a key that did sign (must not count twice)
+            cands = [b_ for b_ in ([["staged"]] if self.staged else []) + [["repo", i] for i in range(len(self.repo_order))][-2:]]
+            base = rng.choice(cands) if cands else base
+            b = self._base(base)
+            try:
+                have = [i for i in range(nk) if self.keys.pub[i] in b["signatures"]]
+                ts = [b["signed"]["delegations"]["root"]["threshold"], self.head["signed"]["delegations"]["root"]["threshold"]]
+                target = max(1, rng.choice([t for t in ts if isinstance(t, int)] or [1]) - 1)
+            except (KeyError, TypeError, AttributeError):
+                have, target = [], 1
+            rng.shuffle(have)
+            mods = [["drop_sig", i] for i in have[target:]]
+            keep = have[:target]
+            if keep:
+                after = [["respell", rng.choice(keep), rng.choice(["upper", "first_upper", "upper", "trail_space", "fullwidth1"])]]
+                if rng.random() < 0.3:
+                    after.append(["respell", rng.choice(keep), rng.choice(["first_upper", "lead_space", "0x"])])
+        elif kind == "drop_fields":
+            fields = ["type", "version", "timestamp", "expiration", "delegations", "metadata_spec_version"]
+            mods = [["del", ["signed", f]] for f in rng.sample(fields, rng.randint(1, 3))]
+            if rng.random() < 0.5:
+                mods.append(["type", "key_mgr"])
             if rng.random() < 0.5:
                 mods.insert(0, ["version_delta", 1])
             signers = comp if rng.random() < 0.5 else []
@@ -771,6 +825,19 @@ class ChainWorld(World):
             mods = [["version_delta", 1], ["strip_sigs"]]
             signers = comp
             base = ["chain", rng.randrange(len(self.honest_chain))]
+        if rng.random() < 0.35 and kind not in ("respell", "misfile", "junk", "tweak"):
+            # stack a second fault on the unsigned part: a respelled / mis-filed copy of an existing entry, or junk
+            b = self._base(base)
+            have = [i for i in range(nk) if isinstance(b, dict) and isinstance(b.get("signatures"), dict) and self.keys.pub[i] in b["signatures"]]
+            cand = sorted(set(have) | set(signers))
+            k2 = rng.choice(["respell", "respell", "misfile", "junk"])
+            kinds.append(k2)
+            if k2 == "respell" and cand:
+                after = after + [["respell", rng.choice(cand), rng.choice(["upper", "first_upper", "upper", "lead_space", "trail_nl", "fullwidth1", "0x"])]]
+            elif k2 == "misfile" and cand:
+                after = after + [["misfile", rng.choice(cand), rng.randrange(nk)]]
+            else:
+                after = after + [["junk", gen.junk_key(rng, self.keys.pub), gen.junk_entry(rng)]]
         op = {"op": "craft", "base": base, "mods": mods, "signers": signers, "mods_after": after, "kinds": kinds, "dt": dt}
         if rng.random() < 0.15:
             op["hdr"] = hx(rng.choice([2, 12, 70]))
